@@ -16,265 +16,18 @@ block is zero and it is the only live block, a decode after `reset` equals the d
 into a fresh structure (rc, consumed, DER, one allocation fewer).
 Faithfulness (model vs C): the number of blocks a decoded value owns (Heap.owned, at the
 C's granularity given by the generated member table) equals the C's live-block count,
-and free_model's event count equals it as well."""
+and free_model's event count equals it as well.
+Second layer (lib/c14x_layer.py, model coq/Rt/HeapX.v): every type kind x three flag sets under
+RESET + re-decode (top level and member by member), extensible types and open type holders
+under faults at every byte of every encoding; leaf structures compared with the model on the
+byte level.  The oracle itself lives in lib/c14_util.py (check_history)."""
 import sys, os, re, json, subprocess, time
 from concurrent.futures import ThreadPoolExecutor
 sys.path.insert(0, os.path.join(os.path.dirname(os.path.abspath(__file__)), "..", "lib"))
 from vlib import *
 from modcorpus import *
-
-WRAP = ["-Wl,--wrap=malloc,--wrap=calloc,--wrap=realloc,--wrap=free"]
-INC = os.path.join(HARNESS, "moddrv_c14.inc")
-RESTARTABLE = ("ber", "oer", "xer")
-# a crash costs a process restart: the UBSan stack trace (0.14 s of symbolizer per report) is left out of the
-# bulk runs; the first line of the report carries file:line
-FAST_ENV = dict(SAN_ENV, UBSAN_OPTIONS="print_stacktrace=0:halt_on_error=1:exitcode=78")
-ENC_SYNS = ["der", "uper", "cper", "oer", "coer", "xer", "cxer"]
-
-
-# ------------------------------------------------------------------ running histories
-
-def run_resume(exe, lines, timeout=45, env=None):
-    """feed lines; when the driver dies on a line, record the crash and go on with the next one.
-    returns list of (output line | None, stderr tail | None)"""
-    res, exits = [], []
-    i = 0
-    while i < len(lines):
-        data = "\n".join(lines[i:]) + "\n"
-        try:
-            p = subprocess.run([exe], input=data, stdout=subprocess.PIPE, stderr=subprocess.PIPE, text=True,
-                               errors="replace", timeout=timeout, env=env or FAST_ENV)
-            rc, so, se = p.returncode, p.stdout, p.stderr
-        except subprocess.TimeoutExpired as e:
-            rc, so, se = -9, (e.stdout or b"").decode(errors="replace") if isinstance(e.stdout, bytes) else (e.stdout or ""), "TIMEOUT"
-        out = so.split("\n")
-        partial = out.pop()          # text after the last newline ('' normally)
-        out = out[:len(lines) - i]
-        res += [(o, None) for o in out]
-        i += len(out)
-        if i < len(lines):
-            res.append((None, "rc=%s partial=%s\n%s" % (rc, partial[-300:], se[-3000:])))
-            i += 1
-        elif rc != 0:
-            # all lines answered but the exit status is bad (a report at exit): blame the batch
-            exits.append("rc=%s\n%s" % (rc, se[-3000:]))
-    return res, exits
-
-
-OPRE = re.compile(r"^(\w+)((?: \S+=\S+)*)( OVERCONSUME)?$")
-
-
-def parse_hist(out):
-    """result line -> list of dicts (one per op) + end dict; None if unparsable"""
-    parts = out.split(" | ")
-    ops = []
-    for p in parts:
-        f = p.split(" ")
-        d = {"op": f[0]}
-        for x in f[1:]:
-            if "=" in x:
-                a, b = x.split("=", 1)
-                d[a] = b
-            else:
-                d[x] = True
-        ops.append(d)
-    if not ops or ops[-1]["op"] != "end":
-        return None
-    return ops
-
-
-# ------------------------------------------------------------------ history generation
-
-def mutate(rng, b):
-    """garbage derived from a valid encoding"""
-    b = bytearray(b)
-    kind = rng.below(6)
-    if len(b) == 0:
-        return bytes(rng.bytes(rng.range(1, 6)))
-    if kind == 0:
-        i = rng.below(len(b)); b[i] ^= 1 << rng.below(8)
-    elif kind == 1:
-        i = rng.below(len(b)); b[i] = rng.below(256)
-    elif kind == 2:
-        i = rng.below(len(b)); b = b[:i] + bytearray(rng.bytes(rng.range(1, 4))) + b[i:]
-    elif kind == 3:
-        i = rng.below(len(b)); del b[i]
-        if not b:
-            b = bytearray(b"\xff")
-    elif kind == 4:
-        i = rng.below(len(b)); b[i:] = rng.bytes(len(b) - i)
-    else:
-        b = bytearray(rng.bytes(rng.range(1, max(2, len(b)))))
-    return bytes(b)
-
-
-# ------------------------------------------------------------------ alternative BER forms of a value
-# (constructed / segmented OCTET STRING, indefinite and long-form lengths): they reach the decoder paths
-# that keep state between calls (the OCTET STRING decode stack in ctx->ptr, left behind by a starved decode)
-
-def parse_val(s, pos=0):
-    ch = s[pos]
-    if ch == "T":
-        return True, pos + 1
-    if ch == "F":
-        return False, pos + 1
-    if ch == "N":
-        return None, pos + 1
-    if ch == "I":
-        j = s.index(";", pos)
-        return int(s[pos + 1:j]), j + 1
-    if ch == "O":
-        j = s.index(";", pos)
-        return bytes.fromhex(s[pos + 1:j]), j + 1
-    if ch in "SL":
-        pos += 2
-        xs = []
-        while s[pos] != "}":
-            v, pos = parse_val(s, pos)
-            xs.append(v)
-        return (ch, xs), pos + 1
-    if ch == "C":
-        j = s.index(":", pos)
-        v, p2 = parse_val(s, j + 1)
-        return ("C", int(s[pos + 1:j]), v), p2
-    if ch == "_":
-        return ("_",), pos + 1
-    if ch == "!":
-        v, p2 = parse_val(s, pos + 1)
-        return ("!", v), p2
-    raise ValueError(s[pos:])
-
-
-def ber_tag(tg, constructed):
-    cls, num = tg % 4, tg // 4
-    b0 = (cls << 6) | (0x20 if constructed else 0)
-    if num <= 30:
-        return bytes([b0 | num])
-    ds = []
-    while True:
-        ds.insert(0, num % 128)
-        num //= 128
-        if num == 0:
-            break
-    return bytes([b0 | 31] + [d | 0x80 for d in ds[:-1]] + [ds[-1]])
-
-
-def ber_len(n, rng, allow_long=True):
-    if n <= 127 and not (allow_long and rng.chance(1, 3)):
-        return bytes([n])
-    b = n.to_bytes(max(1, (n.bit_length() + 7) // 8), "big")
-    if allow_long and rng.chance(1, 3):
-        b = b"\x00" + b                      # non-minimal long form
-    return bytes([0x80 | len(b)]) + b
-
-
-def ber_cons(tg, content, rng):
-    if rng.chance(1, 2):
-        return ber_tag(tg, True) + b"\x80" + content + b"\x00\x00"
-    return ber_tag(tg, True) + ber_len(len(content), rng) + content
-
-
-def ber_alt(tree, v, rng):
-    k = tree[0]
-    if k == "b":
-        return ber_tag(tree[1], False) + b"\x01" + (bytes([rng.range(1, 255)]) if v else b"\x00")
-    if k == "n":
-        return ber_tag(tree[1], False) + b"\x00"
-    if k == "i":
-        n = max(1, (v.bit_length() + 8) // 8)
-        return ber_tag(tree[1], False) + ber_len(n, rng) + v.to_bytes(n, "big", signed=True)
-    if k == "o":
-        if rng.chance(2, 3):
-            # constructed: segments are universal OCTET STRINGs, possibly nested one level
-            segs, i = b"", 0
-            while i < len(v) or (i == 0 and rng.chance(1, 2)):
-                j = min(len(v), i + rng.range(0, 3))
-                piece = b"\x04" + ber_len(j - i, rng) + v[i:j]
-                if rng.chance(1, 4):
-                    piece = b"\x24\x80" + piece + b"\x00\x00"
-                segs += piece
-                if j == i and i >= len(v):
-                    break
-                i = j
-            return ber_cons(tree[1], segs, rng)
-        return ber_tag(tree[1], False) + ber_len(len(v), rng) + v
-    if k == "s":
-        out = b""
-        for m, x in zip(tree[2], v[1]):
-            if m[0] == "?":
-                if x[0] == "!":
-                    out += ber_alt(m[1], x[1], rng)
-            else:
-                out += ber_alt(m, x, rng)
-        return ber_cons(tree[1], out, rng)
-    if k in ("q", "t"):
-        return ber_cons(tree[1], b"".join(ber_alt(tree[3], x, rng) for x in v[1]), rng)
-    if k == "c":
-        return ber_alt(tree[1][v[1]], v[2], rng)
-    if k == "x":
-        return ber_cons(tree[1], ber_alt(tree[2], v, rng), rng)
-    if k == "?":
-        return ber_alt(tree[1], v[1], rng) if v[0] == "!" else b""
-    raise ValueError(k)
-
-
-def hx(b):
-    return b.hex() if len(b) else "-"
-
-
-def histories(rng, case, enc, tier):
-    """enc: {syn: bytes} valid encodings of the case's value.  Returns list of (kind, syn, [ops])"""
-    hs = []
-    syns = [s for s in ("ber", "uper", "oer", "xer") if enc.get(s) is not None]
-    ber = enc["ber"]
-    hs.append(("encode-a", "ber", ["dec:ber:" + hx(ber), "enc:der", "enc:uper", "enc:oer", "enc:xer", "free"]))
-    hs.append(("encode-b", "ber", ["dec:ber:" + hx(ber), "enc:cper", "enc:coer", "enc:cxer", "chk", "free"]))
-    if enc.get("alt") is not None:
-        A = enc["alt"]
-        cut = rng.range(0, len(A) - 1)
-        hs.append(("alt-ber", "ber", ["dec:ber:" + hx(A), "enc:der", "free"]))
-        hs.append(("alt-ber-starve-rest", "ber", ["dec:ber:%s:%d" % (hx(A), cut), "print", "decr:ber", "enc:der", "free"]))
-        hs.append(("alt-ber-starve-free", "ber", ["dec:ber:%s:%d" % (hx(A), cut), "free"]))
-        hs.append(("alt-ber-starve-reset-redecode", "ber", ["dec:ber:%s:%d" % (hx(A), cut), "reset", "dec:ber:" + hx(ber), "enc:der", "free"]))
-        if tier != "quick":
-            hs.append(("alt-ber-starve-garbage", "ber", ["dec:ber:%s:%d" % (hx(A), cut), "dec:ber:" + hx(mutate(rng, A[cut:])), "free"]))
-    for s in syns:
-        B = enc[s]
-        hs.append(("fresh", s, ["dec:%s:%s" % (s, hx(B)), "enc:der", "print", "free"]))
-        cands = []
-        cut = rng.range(0, len(B) - 1) if len(B) >= 1 else 0
-        G = mutate(rng, B)
-        if s in RESTARTABLE:
-            cands.append(("starve-rest", ["dec:%s:%s:%d" % (s, hx(B), cut), "decr:" + s, "enc:der", "free"]))
-            cands.append(("starve-garbage", ["dec:%s:%s:%d" % (s, hx(B), cut), "dec:%s:%s" % (s, hx(mutate(rng, B[cut:]))), "print", "free"]))
-        cands.append(("starve-reset-redecode", ["dec:%s:%s:%d" % (s, hx(B), cut), "print", "reset", "dec:%s:%s" % (s, hx(B)), "enc:der", "free"]))
-        cands.append(("garbage-reset-redecode", ["dec:%s:%s" % (s, hx(G)), "print", "reset", "dec:%s:%s" % (s, hx(B)), "enc:der", "free"]))
-        cands.append(("garbage-free", ["dec:%s:%s" % (s, hx(G)), "chk", "free"]))
-        cands.append(("starve-free", ["dec:%s:%s:%d" % (s, hx(B), cut), "free", "free"]))
-        s2 = rng.choice(syns)
-        cands.append(("valid-reset-redecode", ["dec:%s:%s" % (s, hx(B)), "reset", "dec:%s:%s" % (s2, hx(enc[s2])), "enc:der", "free"]))
-        cands.append(("reset-reset-encode", ["dec:%s:%s" % (s, hx(B)), "reset", "reset", "enc:der", "free"]))
-        cands.append(("free-redecode", ["dec:%s:%s" % (s, hx(B)), "free", "dec:%s:%s" % (s, hx(B)), "reset", "free"]))
-        if tier == "quick":
-            cands = [cands[i] for i in sorted(set(rng.below(len(cands)) for _ in range(2)))]
-        for kind, ops in cands:
-            hs.append((kind, s, ops))
-    return hs
-
-
-def with_fail(ops, i, k):
-    o = ops[i]
-    name, rest = o.split(":", 1) if ":" in o else (o, "")
-    return ops[:i] + ["%s@%d%s" % (name, k, (":" + rest) if rest else "")] + ops[i + 1:]
-
-
-def ks_for(rng, n, tier):
-    cap = 20 if tier == "quick" else 120
-    if n <= cap:
-        return list(range(n))
-    head = list(range(cap * 3 // 4))
-    rest = sorted(set(rng.range(len(head), n - 1) for _ in range(cap // 4)))
-    return head + rest
+from c14_util import *
+import c14x_layer
 
 
 # ------------------------------------------------------------------ main
@@ -352,8 +105,8 @@ def main(tier):
             exits += e
         return res, exits
 
-    def work(m):
-        """all histories of one module: base runs, then the failing replays.  Returns records"""
+    def base_histories(m):
+        """the histories of the base corpus for one module"""
         r = Rng(run.seed * 1000003 + sum(map(ord, m["name"])))
         cs = bm.get(m["name"], [])
         hs = []
@@ -368,15 +121,34 @@ def main(tier):
                 enc["alt"] = None
             for kind, s, ops in histories(r, c, enc, tier):
                 hs.append({"case": c, "kind": kind, "syn": s, "ops": ops, "enc": enc})
+        return hs
+
+    def work(unit):
+        """all histories of one module: base runs, then the failing replays.  Returns records"""
+        m, hs = unit
+        r = Rng(run.seed * 1000003 + 17 + sum(map(ord, m["name"])))
         base, exits = chunked(m["exe"], ["hist %s %s" % (h["case"]["tn"], ";".join(h["ops"])) for h in hs])
         reps = []
+        sigs = set()
         for h, (o, err) in zip(hs, base):
             h["out"], h["err"] = o, err
             h["parsed"] = parse_hist(o) if o else None
-            if not h["parsed"]:
+            if not h["parsed"] or h.get("nofail"):
                 continue
+            if h.get("sig"):
+                # fault sweeps: one representative per outcome signature is replayed with failing allocations;
+                # every failure INSIDE an OER open type container is (the clean-up under test sits there)
+                d0 = h["parsed"][0]
+                inside = h["kind"] == "x-container" or (h["syn"] == "oer" and d0.get("rc") == "FAIL" and h.get("val") and
+                                                        any(off <= h.get("pos", -1) < off + ln for off, ln in h["val"].get("oer_containers", [])))
+                sg = (h["case"]["tn"], h["syn"], h["kind"], tuple((d["op"], d.get("rc"), d.get("c") if tier != "quick" else None, d.get("a"), d.get("live")) for d in h["parsed"][:-1]))
+                if sg in sigs and not inside:
+                    continue
+                sigs.add(sg)
             for i, d in enumerate(h["parsed"][:-1]):
-                if d["op"] in ("dec", "decr", "enc") and int(d.get("a", "0")) > 0:
+                if h.get("fail_ops") is not None and i not in h["fail_ops"]:
+                    continue
+                if d["op"] in ("dec", "decr", "enc", "mrt") and int(d.get("a", "0")) > 0 and "skip" not in d:
                     for k in ks_for(r, int(d["a"]), tier):
                         reps.append({"h": h, "i": i, "k": k, "ops": with_fail(h["ops"], i, k)})
         ro, exits2 = chunked(m["exe"], ["hist %s %s" % (x["h"]["case"]["tn"], ";".join(x["ops"])) for x in reps])
@@ -385,9 +157,17 @@ def main(tier):
             x["out"], x["err"] = o, err
         return m, hs, reps, exits
 
+    units = [(m, base_histories(m)) for m in mods]
+    try:
+        xunits = c14x_layer.units(run, tier, model)
+    except (BuildError, RuntimeError) as e:
+        run.violation("build", {"what": "c14x layer: " + str(e)[-2500:]}, no_input=True)
+        xunits = []
+    tlog("c14x layer built: %d modules, %d histories" % (len(xunits), sum(len(hs) for _, hs in xunits)))
+    units += xunits
     pool = ThreadPoolExecutor(max_workers=NCPU)
-    with ThreadPoolExecutor(max_workers=len(mods) or 1) as ex:
-        results = list(ex.map(work, mods))
+    with ThreadPoolExecutor(max_workers=len(units) or 1) as ex:
+        results = list(ex.map(work, units))
     pool.shutdown()
 
     tlog("histories run")
@@ -396,17 +176,18 @@ def main(tier):
         for err in exits:
             run.violation("crash:exit-status", {"what": "moddrv exited with a bad status after answering every line (report at exit)",
                                                 "module": m["text"], "stderr_tail": err[-2500:]})
+        # the decode of some bytes into a NULL pointer, keyed by (type, op text): the reference of every decode after a reset
         fresh = {}
         for h in hs:
-            if h["kind"] == "fresh" and h["parsed"]:
-                fresh[(h["case"]["tn"], h["case"]["vs"], h["syn"])] = h["parsed"]
+            if h["kind"] in ("fresh", "fresh-x") and h["parsed"]:
+                fresh[(h["case"]["tn"], h["ops"][0])] = {"p": h["parsed"], "ops": h["ops"]}
         for h in hs:
             c = h["case"]
             line = "hist %s %s" % (c["tn"], ";".join(h["ops"]))
             run.case(line)
             run.count("hist_" + h["kind"])
-            run.count("syn_" + h["syn"])
-            rep = {"module": m["text"], "type": c["tn"], "model_type": c["ts"], "value": c["vs"], "history": h["kind"], "command_line": line,
+            run.count("syn_" + h["syn"] + ("_x" if h.get("layer") else ""))
+            rep = {"module": m["text"], "asn1c_opts": " ".join(m.get("opts", ("-fcompound-names",))), "type": c["tn"], "model_type": c["ts"], "value": c["vs"], "history": h["kind"], "command_line": line,
                    "replay_cmd": "echo '%s' | <moddrv of the module built with %s and MODDRV_EXTRA=harness/moddrv_c14.inc>" % (line, WRAP[0])}
             if not h["parsed"]:
                 run.violation("crash:history", dict(rep, what="moddrv died or printed an unparsable line on a history without allocation failure",
@@ -419,8 +200,8 @@ def main(tier):
             c = h["case"]
             line = "hist %s %s" % (c["tn"], ";".join(x["ops"]))
             run.case(line)
-            run.count("allocfail_%s_%s" % (h["parsed"][x["i"]]["op"], h["ops"][x["i"]].split(":")[1]))
-            rep = {"module": m["text"], "type": c["tn"], "model_type": c["ts"], "value": c["vs"], "history": h["kind"], "command_line": line,
+            run.count("allocfail_%s_%s%s" % (h["parsed"][x["i"]]["op"], h["ops"][x["i"]].split(":")[-1 if h["parsed"][x["i"]]["op"] == "mrt" else 1], "_x" if h.get("layer") else ""))
+            rep = {"module": m["text"], "asn1c_opts": " ".join(m.get("opts", ("-fcompound-names",))), "type": c["tn"], "model_type": c["ts"], "value": c["vs"], "history": h["kind"], "command_line": line,
                    "failing_op_index": x["i"], "failing_allocation": x["k"], "allocations_of_op": int(h["parsed"][x["i"]]["a"]),
                    "replay_cmd": "echo '%s' | <moddrv of the module built with %s and MODDRV_EXTRA=harness/moddrv_c14.inc>" % (line, WRAP[0])}
             p = parse_hist(x["out"]) if x.get("out") else None
@@ -432,11 +213,14 @@ def main(tier):
         if hs:
             run.sample({"type": hs[0]["case"]["ts"], "history": ";".join(hs[0]["ops"])[:200], "c": (hs[0]["out"] or "")[:300]})
     tlog("oracle done")
+    if not os.environ.get("C14X_NOPOST"):        # (development switch: the C-side oracle alone)
+        c14x_layer.post(run, results, model)
+    tlog("c14x faithfulness done")
     if os.environ.get("C14_DUMP"):
         json.dump(run.violations, open(os.environ["C14_DUMP"], "w"), indent=1)
     tb = ["Coq 8.16.1 kernel", "axioms under Print Assumptions: " + (", ".join(sorted(axioms)) or "none (Closed under the global context)"),
           "harness/allocwrap.c (ledger, quarantine, failure trigger), harness/moddrv_c14.inc, harness/moddrv.c, GNU ld --wrap, gcc + ASan/UBSan",
-          "lib/modgen.py, lib/modcorpus.py (corpus), the extracted codec model (encodings of the values)",
+          "lib/modgen.py, lib/modcorpus.py (corpus), lib/extgen.py + lib/c14x_layer.py (second layer), the extracted codec model (encodings of the values)",
           "the real allocator and the detection of double frees are runtime facts: the theorems speak about the ownership discipline of the model"]
     return run.finish("proof", (nthm, ndis), trusted_base=tb,
                       checker_cmd="make -C /verif all && coqc -Q coq A1 coq/Props/Properties_C14.v",
@@ -444,106 +228,8 @@ def main(tier):
                                  "rule": "one case = one history (<= 6 ops on one structure pointer) or one replay of it with one allocation failing; distinct command lines",
                                  "traces_validated_against_impl": run.cov["evaluations"]},
                       assumptions=["partial: the proof carries the ownership discipline of the model (what a structure owns, what free/reset release); the C's allocator behaviour is observed by the ledger on the explored histories only",
-                                   "types outside the modelled algebra are not exercised; values are small (DER <= %d octets)" % (maxder // 2)])
-
-
-def check_history(run, rep, h, p, x, fresh):
-    """the C14 oracle on one parsed result line; x = failing replay descriptor or None"""
-    c = h["case"]
-    ops = x["ops"] if x else h["ops"]
-    kindtag = "alloc-failure" if x else "history"
-    end = p[-1]
-    bad = []
-    # blocks already attributed to a leaking op (reported once, at the op where live grew)
-    ex_n = ex_b = 0
-
-    def live_of(d):
-        a, b = d.get("live", "0/0").split("/")
-        return int(a) - ex_n, int(b) - ex_b
-
-    prev = (0, 0)
-    for i, d in enumerate(p[:-1]):
-        name = ops[i].split(":")[0]
-        if d.get("v", "-") != "-":
-            bad.append(("ledger", i, "op %d (%s): %s" % (i, name, d["v"])))
-        if d.get("OVERCONSUME"):
-            bad.append(("overconsume", i, "op %d consumed more than presented" % i))
-        if "BADOP" in d:
-            bad.append(("harness", i, "bad op %d" % i))
-            continue
-        cur = live_of(d)
-        if d["op"] in ("enc", "print", "chk") and cur != prev:
-            # an operation that only reads the structure must leave the heap as it found it
-            bad.append(("leak-in-%s" % d["op"], i, "op %d (%s): live went from %d/%d to %d/%d across a call that only reads the structure"
-                        % (i, name, prev[0], prev[1], cur[0], cur[1])))
-            ex_n += cur[0] - prev[0]
-            ex_b += cur[1] - prev[1]
-            cur = prev
-        if d["op"] == "free" and cur != (0, 0):
-            bad.append(("leak", i, "op %d: after ASN_STRUCT_FREE %d/%d blocks/bytes are still live" % (i, cur[0], cur[1])))
-            ex_n += cur[0]
-            ex_b += cur[1]
-            cur = (0, 0)
-        if d["op"] == "reset":
-            if d.get("zero") != "1":
-                bad.append(("reset-not-zero", i, "op %d: after ASN_STRUCT_RESET the top block is not all zero" % i))
-            top = int(d.get("top", "0"))
-            want = (1, top) if top else (0, 0)
-            if cur != want:
-                bad.append(("reset-leak", i, "op %d: after ASN_STRUCT_RESET live is %d/%d, the top block alone would be %d/%d" % (i, cur[0], cur[1], want[0], want[1])))
-                ex_n += cur[0] - want[0]
-                ex_b += cur[1] - want[1]
-                cur = want
-        prev = cur
-    if live_of(end) != (0, 0) or end.get("st") != "0":
-        bad.append(("leak", len(p) - 1, "at the end of the history live=%s st=%s" % (end.get("live"), end.get("st"))))
-    if x:
-        d = p[x["i"]]
-        if d.get("f") != "1":
-            bad.append(("replay-nondeterministic", x["i"], "allocation %d of op %d was not reached in the replay (a=%s)" % (x["k"], x["i"], d.get("a"))))
-        b = h["parsed"][x["i"]]
-        if d["op"] in ("dec", "decr") and d.get("rc") == "OK" and b.get("rc") == "OK":
-            # a decode that reports success although an allocation failed must deliver the same value
-            nxt = [j for j in range(x["i"] + 1, len(p) - 1) if p[j]["op"] == "enc" and ops[j] == "enc:der"]
-            if nxt and p[nxt[0]].get("hex") != h["parsed"][nxt[0]].get("hex"):
-                bad.append(("unclean-success", x["i"], "decode reports RC_OK with a failed allocation and the value differs from the undisturbed decode"))
-        if d["op"] == "enc" and int(d.get("ret", "-1")) >= 0 and d.get("hex") != b.get("hex"):
-            bad.append(("unclean-success", x["i"], "encode reports success with a failed allocation and different bytes"))
-    else:
-        # sanity of the undisturbed history + "re-decode after reset equals decode into a fresh structure"
-        for i, d in enumerate(p[:-1]):
-            o = ops[i].split(":")
-            if d["op"] == "dec" and len(o) == 3 and i > 0 and p[i - 1]["op"] == "reset":
-                key = (c["tn"], c["vs"], o[1])
-                fr = fresh.get(key)
-                if fr and ops[i] == "dec:%s:%s" % (o[1], hx(h["enc"][o[1]])):
-                    f0 = fr[0]
-                    reused = p[i - 1].get("top", "0") != "0"
-                    if (d.get("rc"), d.get("c")) != (f0.get("rc"), f0.get("c")):
-                        bad.append(("reset-not-fresh", i, "decode after reset: rc/consumed %s/%s, into a fresh structure %s/%s" % (d.get("rc"), d.get("c"), f0.get("rc"), f0.get("c"))))
-                    elif int(d.get("a", 0)) != int(f0.get("a", 0)) - (1 if reused else 0):
-                        bad.append(("reset-not-fresh", i, "decode after reset makes %s allocations, into a fresh structure %s (top block reused: %s)" % (d.get("a"), f0.get("a"), reused)))
-                    if i + 1 < len(p) - 1 and ops[i + 1] == "enc:der" and p[i + 1].get("hex") != fr[1].get("hex"):
-                        bad.append(("reset-not-fresh", i, "value decoded after reset differs from the value decoded into a fresh structure"))
-        if h["kind"] == "alt-ber":
-            run.count("alt_ber_dec_%s" % p[0].get("rc"))
-            if p[0].get("rc") == "OK" and p[1].get("hex") != c["der"]:
-                bad.append(("value", 0, "an alternative BER form decodes to a different value"))
-        if h["kind"] == "fresh":
-            run.count("fresh_dec_%s_%s" % (h["syn"], p[0].get("rc")))
-            own = c.get("own_oer") if h["syn"] == "oer" else c.get("own")
-            if p[0].get("rc") == "OK" and own:
-                # faithfulness: the C's ledger after a successful decode holds as many blocks as the model's structure owns
-                nC = p[0].get("live", "0/0").split("/")[0]
-                run.count("owned_blocks_%s" % (own["n"] if int(own["n"]) < 8 else "8+"))
-                if nC != own["n"]:
-                    run.violation("correspondence:Heap.owned", dict(rep, what="after a successful %s decode the C holds %s live blocks, the model's structure owns %s (%s)"
-                                                                    % (h["syn"], nC, own["n"], " ".join("%s=%s" % kv for kv in own.items())),
-                                                                    c=h["out"][:600]), no_input=True)
-            if p[0].get("rc") == "OK" and p[1].get("hex") != c["der"]:
-                bad.append(("value", 0, "valid %s encoding decodes to a different value" % h["syn"]))
-    for kind, opi, what in bad:
-        run.violation("oracle:%s(%s)" % (kind, kindtag), dict(rep, what=what, c=" | ".join("%s %s" % (d["op"], " ".join("%s=%s" % kv for kv in d.items() if kv[0] not in ("op", "hex"))) for d in p)))
+                                   "base corpus: types of the modelled algebra, values small (DER <= %d octets); the c14x layer exercises every other type kind on hand-written modules "
+                                   "(oracle on the C alone; model tie for leaf structures on the byte level and for failures inside OER open type containers)" % (maxder // 2)])
 
 
 if __name__ == "__main__":
